@@ -49,6 +49,13 @@ def setup(T, NODE, CTX, variant, has_any=False, prefix="C02"):
         elif variant == "toml":
             from mashumaro.mixins.toml import DataClassTOMLMixin as base
             meth = lambda w: w.to_toml(encoder=ident)
+        if isinstance(T, type) and issubclass(T, base) and variant != "field":
+            # the schema class itself carries the format mixin (e.g. a Self-referencing format class): no wrapper
+            S.W = T
+            S.encode = meth
+            S.wrap = lambda v: v
+            S.RT = T
+            return S
         W = dataclasses.make_dataclass("W", [("x", T)], bases=(base,))
         S.W = W
         S.encode = meth
